@@ -177,6 +177,26 @@ class Event(Expression):
         raise AssertionError()
 
 
+def _negative_int_for_unsigned(int_expr, other_expr):
+    """numeric_std takes the integer operand of an UNSIGNED operator as NATURAL.
+    Returns the (negative) python value if int_expr is a negative integer constant
+    combined with an Unsigned operand, otherwise None"""
+    val = TypeQualifier.decay(int_expr.result)
+
+    if isinstance(val, Integer):
+        val = val.get_value()
+
+    if (
+        isinstance(val, int)
+        and not isinstance(val, bool)
+        and val < 0
+        and isinstance(TypeQualifier.decay(other_expr.result), Unsigned)
+    ):
+        return val
+
+    return None
+
+
 class Compare(Expression):
     Operator = ir.Compare.Operator
 
@@ -203,6 +223,11 @@ class Compare(Expression):
 
     def write(self, scope: VhdlScope):
         op = Compare.operator_string[self._op]
+
+        assert (
+            _negative_int_for_unsigned(self._lhs, self._rhs) is None
+            and _negative_int_for_unsigned(self._rhs, self._lhs) is None
+        ), "comparison of Unsigned value with negative integer constant"
 
         return f"({self._lhs.write(scope)} {op} {self._rhs.write(scope)})"
 
@@ -294,7 +319,28 @@ class BinOp(Expression):
                 self._rhs.result = self._rhs.result.bitvector
 
         op = BinOp.operator_string[self._op]
-        return f"({self._lhs.write(scope)}) {op} ({self._rhs.write(scope)})"
+
+        lhs_str = self._lhs.write(scope)
+        rhs_str = self._rhs.write(scope)
+
+        for int_expr, other in ((self._lhs, self._rhs), (self._rhs, self._lhs)):
+            neg = _negative_int_for_unsigned(int_expr, other)
+
+            if neg is not None:
+                # the integer parameter of numeric_std operators for UNSIGNED is a NATURAL
+                assert self._op in (
+                    BinOp.Operator.ADD,
+                    BinOp.Operator.SUB,
+                ), "negative integer constant used in unsigned operation"
+
+                wrapped = str(neg % 2 ** TypeQualifier.decay(other.result).width)
+
+                if int_expr is self._lhs:
+                    lhs_str = wrapped
+                else:
+                    rhs_str = wrapped
+
+        return f"({lhs_str}) {op} ({rhs_str})"
 
 
 class UnaryOp(Expression):
